@@ -205,6 +205,10 @@ def main(argv):
             coverage.update(mod.finalize(rep, tier) or {})
         except Exception as e:
             rep.notes.append(f"finalize error: {e!r}")
+    if coverage.get("inconclusive_reason"):
+        # a check may declare its own run inconclusive (e.g. C15: the syscall audit saw writes the
+        # crash interposer cannot see)
+        reasons.append(str(coverage["inconclusive_reason"]))
 
     evidence = {
         "property_id": pid,
